@@ -48,6 +48,11 @@ def _case(rng, malformed=False):
     c = _case0(rng, malformed)
     if not malformed and rng.random() < 0.25:
         c['labels'] = [rng.choice([d[0] for d in c['spec']['dims']]), rng.choice(['S8', 'U8'])]
+    lists = [k for k, s_ in c['sels'] if s_[0] == 'l']
+    if not malformed and len(lists) >= 2 and rng.random() < 0.5:
+        # a 64-bit integer variable (identifiers, nanosecond times: values a double cannot hold) on two of the listed
+        # dimensions: the pointwise selection moves values, it does not compute with them (oracle only)
+        c['bigint'] = lists[:2]
     return c
 
 
@@ -317,10 +322,19 @@ def impl(case):
         n = {d[0]: d[1] for d in case['spec']['dims']}[lab[0]]
         lv = f.createVariable('LABELS', lab[1], (lab[0],))
         lv[:] = np.array(_labels(n), dtype=lab[1])
+    big = case.get('bigint')
+    if big:
+        dlb = {d[0]: d[1] for d in case['spec']['dims']}
+        bv = f.createVariable('BIGID', 'q', tuple(big))
+        bv[:] = (1700000019123456789 + 1001 * np.arange(dlb[big[0]] * dlb[big[1]], dtype='q')).reshape(dlb[big[0]], dlb[big[1]])
     try:
         with lib.pnc_warnings():
             o = f.sliceDimensions(newdims=('POINTS',), **kw)
         extra = {}
+        if big:
+            bo = o.variables.pop('BIGID')
+            extra.update(big=[int(x) for x in np.asarray(bo[...]).ravel().tolist()], big_dims=list(bo.dimensions),
+                         big_dtype=str(np.asarray(bo[...]).dtype))
         if lab:
             lo = o.variables.pop('LABELS')
             extra = dict(labels=[x.decode() if isinstance(x, bytes) else str(x) for x in np.asarray(lo[...]).ravel().tolist()],
@@ -328,6 +342,8 @@ def impl(case):
         return dict(obs=pfile.observe(o, spec=case['spec']), **extra)
     except Exception as e:
         return dict(err=type(e).__name__, msg=str(e)[:100])
+    finally:
+        pass
 
 
 def _labels(n):
@@ -424,6 +440,13 @@ def oracle(case, res):
             idx[k] = list(range(n))[slice(s[1], s[2], s[3])]
         else:
             idx[k] = [i % n for i in s[1]]
+    if case.get('bigint') and 'big' in res:
+        b0, b1 = case['bigint']
+        src = (1700000019123456789 + 1001 * np.arange(dl[b0] * dl[b1], dtype='q')).reshape(dl[b0], dl[b1])
+        want = [int(src[i, j]) for i, j in zip(idx[b0], idx[b1])]
+        if res['big'] != want or res['big_dims'] != ['POINTS'] or res['big_dtype'] != 'int64':
+            return 'int64 variable BIGID(%s, %s) under the pointwise selection: %s %s %s, the selected cells are %s' % (
+                b0, b1, res['big'][:3], res['big_dims'], res['big_dtype'], want[:3])
     lab = case.get('labels')
     if lab and 'labels' in res and not zipped:
         # the string variable: the same orthogonal selection, every character kept, the dtype unchanged
